@@ -195,3 +195,8 @@ Proof.
   - right. split; [apply rightmost_untrusted_none; exact R|].
     destruct hops as [|[h t] r]; cbn in H; auto.
 Qed.
+
+(* statement order of serveSign (generated call table): key resolution and the entitlement check precede
+   signinit.Init (first token access), Sign, audit and the response *)
+Lemma sign_order : sign_call_order = [0; 1; 2; 3; 4; 5; 6; 7; 8; 9].
+Proof. reflexivity. Qed.
